@@ -11,7 +11,7 @@ PROPS = {
         design_ref="DESIGN.md section 5, C11",
         technique="contract-based deductive verification (Verus): abstraction-function model + well-formedness invariant on the real Stack methods, extracted from /repo each run",
         level_text="Unbounded proof: every Stack method, copied token-for-token from pest/src/stack.rs, is verified by Verus against the naive full-copy model through an abstraction function; wf is an inductive invariant, so all histories and all snapshot depths are covered; all arithmetic/range preconditions are discharged (no panic).",
-        level_note="Assumed: std contracts of Vec::drain/extend/rev (3 external_body helpers), Clone returns an equal element, Verus/Z3/vstd, the extractor. Index impl not covered.",
+        level_note="Assumed: std contracts of Vec::drain/extend/rev (3 external_body helpers), Clone returns an equal element, Verus/Z3/vstd, the extractor. The Index<Range<usize>> impl is verified as an inherent method (Verus rejects requires on trait impls).",
         assumptions=["clone_is_id::<T>(): Clone on stack elements returns an equal value (a `requires` of Stack::pop; true for pest's SpanOrLiteral and i32)",
                      "Vec lengths fit usize (vstd); std contracts of Vec::drain / Vec::extend / Iterator::rev as stated on the vx_* helpers",
                      "Verus 0.2026.09.13 + Z3, vstd specifications of Vec/Option; the extractor (token-level copy + rewrite rules R1,R2,R3)"],
@@ -43,7 +43,7 @@ PROPS["C03"] = dict(
     design_ref="DESIGN.md section 5, C03",
     technique="contract-based deductive verification (Verus): frame law with closure laws on every ParserState combinator, exact functional contracts on the Position matchers over vstd's UTF-8 theory; real code extracted from /repo each run",
     level_text="Unbounded proof for all call trees built from lawful closures and all inputs: every public ParserState operation is verified against the frame law (input, flags, snapshots below entry depth and earlier tokens untouched) given that its closure arguments obey it; failed sequence / any lookahead restore position, tokens (up to node tags, finding F2) and stack; rule emits exactly one balanced Start/End pair around its body's tokens iff it succeeds outside lookahead/atomic; match_string/insensitive/range/char_by/skip/skip_until_basic have exact iff/advance/stay/boundary postconditions proved from vstd's UTF-8 definitions.",
-    level_note="Assumed: vstd specs, std helper contracts, lawful-closure hypothesis, 9 external_body functions (listed in evidence). memchr configuration and exact relational postconditions of the combinators not yet covered.",
+    level_note="Assumed: vstd specs, std helper contracts (listed in evidence), the lawful-closure hypothesis, 3 external_body functions (Position::span: ptr::eq; BorrowedOrArc::as_str and SpanOrLiteral::as_borrowed_or_rc: Arc deref/clone), the memchr crate's documented contract in the memchr configuration. Every combinator also carries a direct-reading postcondition (sequence, lookahead, optional, repeat as a ghost chain, atomic, restore_on_err, rule, stack_push); stack_match_peek_slice and constrain_idxs are verified from their bodies. stack_push_literal is not under contract. Quick tier adds an enumerative cross-check of PEEK[a..b] / PEEK_ALL / POP_ALL (not counted).",
     assumptions=CORE_ASSUME, not_covered=CORE_NOT_COVERED,
 )
 PROPS["C04"] = dict(
@@ -53,7 +53,7 @@ PROPS["C04"] = dict(
     design_ref="DESIGN.md section 5, C04",
     technique="contract-based deductive verification (Verus): recursive closed-forest predicate as part of the frame law of every ParserState operation; precondition of pairs::new discharged in state()",
     level_text="Part (a), emission: proved for all call trees of lawful closures that the tokens appended by any operation form a closed forest (balanced, properly nested, positions non-decreasing, on UTF-8 boundaries, within the text walked), hence every successful parse hands pairs::new a well-formed stream. Part (b), views: see the pairs unit.",
-    level_note="As C03. Display/Debug/JSON/concat views build strings through format!/serde and are outside the Verus subset.",
+    level_note="As C03. Display/Debug/JSON/concat views build strings through format!/serde and are outside the Verus subset; the node-tag views are iterator-adaptor code and are decided only by the pairs_search enumeration in the quick tier (bounded stand-in, not counted).",
     assumptions=CORE_ASSUME, not_covered=CORE_NOT_COVERED + ["Display, Debug, to_json, concat: format!/serde, not covered",
         "node-tag views (as_node_tag, find_tagged, find_first_tagged: Filter<FlatPairs, impl FnMut>) are iterator-adaptor code outside every contract: decided only by the pairs_search enumeration (bounded stand-in, every forest of <= 3 nodes x every tag assignment)"],
 )
@@ -73,7 +73,7 @@ PROPS["C12"] = dict(
     kani=[], searcher=["state"],
     design_ref="DESIGN.md section 5, C12",
     technique="contract-based deductive verification (Verus) with a ghost 'refused' bit set where inc_call_check_limit refuses; refusal law proved per operation; three operations violate it (known findings F4)",
-    level_text="Unary formulation of the two-run property: limit constant and counter monotone (frame), inc_call_check_limit refuses iff the limit is reached and records it in a ghost bit, every operation whose closures obey the refusal law obeys it too (a refusal during the call makes the call fail), state() turns an Err with the limit reached into the 'call limit reached' error. optional, repeat and negative lookahead do NOT obey the law: recorded as known findings F4 (isolated failing obligations).",
+    level_text="Unary formulation of the two-run property: limit constant and counter monotone (frame), inc_call_check_limit refuses iff the limit is reached and records it in a ghost bit, every operation whose closures obey the refusal law obeys it too (a refusal during the call makes the call fail), state() turns an Err with the limit reached into the 'call limit reached' error. optional, repeat and negative lookahead do NOT obey the law: recorded as known findings F4 (isolated failing obligations). repeat carries its direct reading as a ghost chain of closure results (it may stop only when the closure fails); limit_reached, CallLimitTracker::default and inc_call_check_limit are verified from their bodies.",
     level_note="As C03. Choice is Result::or_else in generated code / the VM (std), outside the contracts; it absorbs refusals the same way (F4).",
     assumptions=CORE_ASSUME, not_covered=CORE_NOT_COVERED,
 )
